@@ -219,7 +219,7 @@ def dropReader (r : Rx) : Rx × List Wake :=
   else ({ r with readerDropped := true }, [])
 
 inductive LoopExit where
-  | more | done | deadDispatcher | err (msg : String) | bug
+  | done | deadDispatcher | err (msg : String) | bug
 deriving Repr, DecidableEq
 
 /-- The `while let Some(current_buf)` loop of `poll_read_vectored` with one buffer of `room`
